@@ -10,3 +10,14 @@ add("C03", "model_checking",
     "All 729 product shape triples, all 81 shapes for every other operator/editor with every row/column/offset argument, all 6561 resizes, and every editing history up to depth 4 (quick) / 5-6 (thorough) from four initial matrices are executed on the real code and compared with a naive model through the derived PartialEq (raw buffer) and every getter. Exhaustive within those bounds; nothing beyond them.",
     "Trusted: the Vec<Vec<Rat>> model and the exact-rational type (i128, checked). One generic filling per shape is assumed to decide index arithmetic (operators are polynomial identities in the entries).",
     "DESIGN.md section 6 C03")
+
+add("C01", "exploration",
+    "exhaustive input-lattice enumeration (bounded model checking of a sequential API) against exact rational arithmetic",
+    "Every n x n matrix over a small signed alphabet (n<=3 quick, n<=4 thorough) with every right-hand side over {0,+-1}, every permutation P in the P*L*U family up to n=6, the tiny-pivot lattice {0,1,-1,2,+-1e-20} and Complex<f64> lattices are solved by the real solve_basic and solve_lu; exact equality A*x=b over rationals, normwise backward error <= 1e-12 over floats (worst observed ~1e-16 is recorded), mutual agreement. Exhaustive within the alphabets/orders; silent about larger orders and general f64 bit patterns.",
+    "Trusted: cofactor determinant deciding nonsingularity, the checked-i128 rational type, the fma-based residual. f64 lattices contain only well-conditioned systems (tiny perturbations of nonsingular integer matrices) so any backward-stable solver passes.",
+    "DESIGN.md section 6 C01")
+add("C02", "exploration",
+    "exhaustive input-lattice enumeration including all singular members, against cofactor/Bareiss determinant over exact rationals",
+    "All matrices over {0,+-1,+-2} (n<=2), {0,+-1} (n=3; n=4 and 5-letter n=3 thorough), all signed permutation matrices n<=6, transposition products with sign flips for n=7,8, triangular and rank-deficient families up to n=8: determinant() must equal the exact determinant (0 on singular input, correct sign), A*inv=inv*A=I exactly, operand equal to its pre-call clone; f64/Complex<f64> twins within 1e-12 (Hadamard-scaled) / 1e-10.",
+    "Trusted: independent cofactor (n<=5) and fraction-free Bareiss (n>5) determinants; orders 5..8 only through structured families.",
+    "DESIGN.md section 6 C02")
